@@ -50,6 +50,18 @@ def gen(rng, i, tier):
         t = ["corpus", j, rng.randrange(1, 1 << 30)]
     elif r < 0.3:
         t = ["lit", "".join(rng.choice("#:;\\/ \n\rab﻿") for _ in range(rng.randrange(0, 16)))]
+    elif r < 0.38:
+        # the text of one SSC chart, as SSCChart.from_str takes it: a NOTEDATA parameter first; further NOTEDATA parameters, aliases and
+        # parameters after the note data are ordinary content of the text
+        parts = [rng.choice(["#NOTEDATA:;", "#notedata:;", "#NOTEDATA;", "#NOTEDATA:x;"])]
+        for _ in range(rng.randrange(0, 6)):
+            parts.append(rng.choice(["#STEPSTYPE:dance-single;", "#METER:3;", "#NOTEDATA:;", "#NOTEDATA;", "#CREDIT;", "#DISPLAYBPM:60:120;", "#meter:4;", "#X:a\\:b;", "#NOTES2:11;"]))
+            parts.append(rng.choice(["", "\n", "\n\n"]))
+        if rng.random() < 0.8:
+            parts.append(rng.choice(["#NOTES:0000\n0000;", "#NOTES2:1000;", "#NOTES;", "#notes:0;"]))
+        if rng.random() < 0.3:
+            parts.append(rng.choice(["#CREDIT:after the notes;", "#NOTEDATA:;#NOTES:1;"]))
+        t = ["lit", "".join(parts)]
     else:
         t = ["lit", G.rand_msd_text(rng)]
     return {"t": t, "strict": rng.random() < 0.5, "names": rng.sample(NAMES, 3)}
@@ -213,6 +225,12 @@ def oracle(c, o):
         return None
     if not strict and o["loads"] == ["err", "stray"]:
         return "stray-text error although strict parsing is off"
+    if ps and ps[0][0].upper() == "NOTEDATA":
+        # SSCChart.from_str: everything after the first parameter belongs to the chart, up to and including its note data
+        end = next((i for i in range(1, len(ps)) if ps[i][0].upper() in ("NOTES", "NOTES2")), len(ps) - 1)
+        want_sc = ["ok", doc_props(ps[1:end + 1])]
+        if o["SSCChart_from_str"] != want_sc:
+            return "SSCChart.from_str gives %s..., the parameters after NOTEDATA up to the note data are %s..." % (str(o["SSCChart_from_str"])[:200], str(want_sc)[:200])
     if "SMChart_from_msd" in o:
         vals = ps[0][1:]
         want_chart = ["ok", [[v.strip() for v in vals[:6]], vals[6:]]] if len(vals) >= 6 else ["err", "value"]
